@@ -19,6 +19,7 @@ package url
 import (
 	"sort"
 	"strings"
+	"unicode/utf8"
 )
 
 type NameValuePair struct {
@@ -136,9 +137,32 @@ func (s *SearchParams) Set(name, value string) {
 // Sort sorts the search parameters by name.
 func (s *SearchParams) Sort() {
 	sort.SliceStable(s.params, func(i, j int) bool {
-		return s.params[i].Name < s.params[j].Name
+		return lessCodeUnits(s.params[i].Name, s.params[j].Name)
 	})
 	s.update()
+}
+
+// lessCodeUnits reports whether a sorts before b by comparison of UTF-16 code units, which is the
+// order the URL standard requires for sorting search parameters. It differs from the byte-wise order
+// of the UTF-8 strings when a code point in U+E000..U+FFFF meets a supplementary code point
+// (a surrogate pair, 0xD800..0xDFFF, in UTF-16) and for bytes that are not valid UTF-8, which are
+// serialized as U+FFFD.
+func lessCodeUnits(a, b string) bool {
+	for len(a) > 0 && len(b) > 0 {
+		ra, na := utf8.DecodeRuneInString(a)
+		rb, nb := utf8.DecodeRuneInString(b)
+		if ra != rb {
+			switch {
+			case ra > 0xFFFF && rb <= 0xFFFF:
+				return rb >= 0xE000
+			case ra <= 0xFFFF && rb > 0xFFFF:
+				return ra < 0xD800
+			}
+			return ra < rb
+		}
+		a, b = a[na:], b[nb:]
+	}
+	return len(a) < len(b)
 }
 
 // SortAbsolute sorts the search parameters by name and value.
